@@ -446,6 +446,8 @@ def acyclic(T) -> bool:
 
 
 def is_tree(T) -> bool:
+    if not acyclic(T):
+        return False
     seen = Counter()
 
     def visit(s):
